@@ -70,6 +70,51 @@ def verus_unit_step(vspec_name):
     return step
 
 
+def sampled_stand_in_step(unit, rows_of, n_per_row=20000, far_n=40):
+    """quick tier only: the rows whose full-domain proof is left to the thorough tier are EXECUTED on the real crate with seeded
+    random operands (boundary-biased Src::random). This is a sampled stand-in, labelled as such: it adds nothing to
+    obligations/discharged; a failing sample is a violation with a concrete input (same key as the row's proof)."""
+    import shutil
+    import ast
+
+    def step(rep, cov):
+        rows = sorted(rows_of())
+        info = dict(kind='sampled (NOT proved; the full-domain proofs of these rows run in the thorough tier)', rows=len(rows),
+                    samples_per_row=n_per_row, seed=common.seed(), held=0, refused=0, violated=[])
+        cov['sampled_stand_in'] = info
+        if not rows:
+            return 0
+        d = common.scratch('kx-sample-' + unit)
+        nviol = 0
+        try:
+            kx.gen_crate(unit, d)
+            runner = kx.build_runner(d)
+            for r in rows:
+                n = far_n if r.endswith(('__far', '__bound')) else n_per_row
+                rc, out, err, _ = common.run_cmd([runner, 'sample', r, str(common.seed()), str(n)], timeout=600)
+                m = re.search(r'^ROW \S+ held=(\d+) refused=(\d+) skipped=(\d+)', out, re.M)
+                if m:
+                    info['held'] += int(m.group(1))
+                    info['refused'] += int(m.group(2))
+                v = re.search(r'^VIOLATED (\S+) operands=(\[[^\]]*\]) (.*)$', out, re.M)
+                if v:
+                    ops = ast.literal_eval(v.group(2))
+                    info['violated'].append(r)
+                    payload = dict(unit=unit, row=r, failed_clauses=[v.group(3)[:600]],
+                                   failing_input=dict(unit=unit, row=r, operands=ops, replay_output=v.group(3)[:1500]),
+                                   note='found by the sampled stand-in of the quick tier (concrete execution of the row on the real crate)')
+                    if rep.violation('kani:%s:%s' % (unit, r), '%s :: %s :: %s' % (unit, r, v.group(3)[:200]), payload, True):
+                        nviol += 1
+                elif rc not in (0, 1) or not m:
+                    rep.undecide('[%s] sampled stand-in of row %s did not run: %s' % (unit, r, (out + err)[-300:]))
+        except kx.Undecided as e:
+            rep.undecide('[%s] sampled stand-in unavailable: %s' % (unit, str(e)[:600]))
+        finally:
+            shutil.rmtree(d, ignore_errors=True)
+        return nviol
+    return step
+
+
 def run(prop, unit, tier, assumptions, samples, not_decided, slow=(), extra_units=(), extra_steps=None, quick_skip=None):
     u = kx.UNITS[unit]
     _non, not_cov = not_instruction_methods(os.path.join(common.VERIF, u['rows']))
@@ -80,8 +125,17 @@ def run(prop, unit, tier, assumptions, samples, not_decided, slow=(), extra_unit
             return None
         rows = kx.row_names(os.path.join(common.VERIF, u['rows']))
         return set(r for r in rows if r not in slow_set and not (quick_skip and quick_skip(r)))
+    steps = [extra_steps] if extra_steps else []
+    if tier != 'thorough':
+        def skipped_rows():
+            rows = kx.row_names(os.path.join(common.VERIF, u['rows']))
+            return [r for r in rows if r not in row_filter(unit, tier)]
+        steps.append(sampled_stand_in_step(unit, skipped_rows))
+
+    def all_steps(rep, cov):
+        return sum((st(rep, cov) or 0) for st in steps)
     return kprop.run_kani_property(prop, tier, [unit] + list(extra_units), assumptions=assumptions, samples=samples, not_decided=not_decided,
                                    row_filter=row_filter, not_covered=['%s: %s' % nc for nc in not_cov],
-                                   method_check={unit: make_method_check(unit)}, extra_steps=extra_steps,
+                                   method_check={unit: make_method_check(unit)}, extra_steps=all_steps,
                                    jobs=(4 if tier == 'thorough' else 14),
                                    extra_cov=dict(slow_rows_only_in_thorough=sorted(slow_set)))
